@@ -67,7 +67,7 @@ namespace fastscapelib
             if ((*p_jobs)[i] != nullptr)
             {
                 FASTSCAPELIB_VERIF_SYNC(k_store, s_has_job, this, i);
-                m_has_job[i].store(1, std::memory_order_relaxed);
+                m_has_job[i].store(1, std::memory_order_release);
             }
     }
 
@@ -120,7 +120,7 @@ namespace fastscapelib
         for (std::size_t i = 0; i < m_size; ++i)
         {
             FASTSCAPELIB_VERIF_SYNC(k_load, s_has_job, this, i);
-            if (m_has_job[i].load(std::memory_order_relaxed))
+            if (m_has_job[i].load(std::memory_order_acquire))
                 return false;
         }
         return true;
@@ -193,13 +193,13 @@ namespace fastscapelib
                         while (!m_stopped.load(std::memory_order_relaxed))
                         {
                             FASTSCAPELIB_VERIF_SYNC(k_poll, s_worker_loop, this, i);
-                            if (m_has_job[i].load(std::memory_order_relaxed))
+                            if (m_has_job[i].load(std::memory_order_acquire))
                             {
                                 FASTSCAPELIB_VERIF_SYNC(k_job_begin, s_job, this, i);
                                 (*p_jobs)[i]();
                                 FASTSCAPELIB_VERIF_SYNC(k_job_end, s_job, this, i);
                                 FASTSCAPELIB_VERIF_SYNC(k_store, s_has_job, this, i);
-                                m_has_job[i].store(0, std::memory_order_relaxed);
+                                m_has_job[i].store(0, std::memory_order_release);
                             }
                             FASTSCAPELIB_VERIF_SYNC(k_load, s_stopped, this, i);
                         }
